@@ -1,6 +1,6 @@
 import argparse, json, os, sys, time
 from common import *
-import props, stages, corr_rt, corr_cc, corr_it, corr_tb, corr_k8
+import props, stages, corr_rt, corr_cc, corr_it, corr_tb, corr_k8, corr_k10
 
 CORRS = {
     "k1": corr_rt.k1,
@@ -11,6 +11,7 @@ CORRS = {
     "race": corr_rt.race,
     "tb": corr_tb.tb,
     "k8": corr_k8.k8,
+    "k10": corr_k10.k10,
 }
 
 
@@ -90,7 +91,7 @@ def main(argv):
             return bool(d.get("impl_vs_spec", True))
         if name == "k2":
             return bool(d.get("impl_deeper"))
-        if name in ("cc:k6a", "cc:k6d", "cc:k4acc", "cc:k6build", "cc:k9impl", "k3:native", "tb:run", "tb:opt", "tb:accept", "k8:c13", "k8:c15", "k8:c16"):
+        if name in ("cc:k6a", "cc:k6d", "cc:k4acc", "cc:k6build", "cc:k9impl", "k10:build", "k3:native", "tb:run", "tb:opt", "tb:accept", "k8:c13", "k8:c15", "k8:c16"):
             return True
         if name == "cc:k6e":
             return "Buildable=True" in d.get("model", "") or "Buildable=true" in d.get("model", "")
